@@ -40,18 +40,12 @@ def run(ctx):
         ctx.violation({"kind": "lookup-writes-to-the-callers-LookupOptions", "detail": sh,
                        "explain": "goroutines sharing one LookupOptions{LatestAnchor:true} value get errors or wrong results"})
     ctx.cov["shared_options_calls"] = sh["calls"]
-    # open finding C09-page-overflow: MaxElements * Offset is computed in int; class = both positive and the product
-    # does not fit in 63 bits; witness MaxElements = Offset = 2^32 on a one-triple graph (page 2^32 must be empty)
-    for kf in vcheck.known_findings("C09"):
-        if kf.get("id") == "C09-page-overflow":
-            ov = sc.hstore(["-mode", "overflow"])[0]
-            if ov["page_elements"] != 0 and ov["control_elements"] == 0:
-                ctx.known("id=C09-page-overflow Triples() with MaxElements=2^32, Offset=2^32 returns %d element(s) of a "
-                          "%d-element result instead of none (MaxElements*Offset wraps to 0)" % (ov["page_elements"], ov["unpaged_elements"]))
-            elif ov["control_elements"] != 0:
-                ctx.violation({"kind": "page-beyond-the-end-not-empty", "detail": ov})
-            else:
-                ctx.notes.append("finding C09-page-overflow no longer reproduces")
+    # regression of the repaired defect C09-page-overflow (fix e5e0649): MaxElements = Offset = 2^32 on a one-triple graph;
+    # page number 2^32 must be empty (the control MaxElements=3, Offset=2^40 never overflowed)
+    ov = sc.hstore(["-mode", "overflow"])[0]
+    if ov["page_elements"] != 0 or ov["control_elements"] != 0:
+        ctx.violation({"kind": "page-beyond-the-end-not-empty", "detail": ov,
+                       "explain": "MaxElements*Offset overflows int: a page far beyond the end returns elements"})
     dist = sc.distribution(hists)
     ctx.cov.update(dist)
     st = [sum(h["lookup_stats"][i] for h in hists) for i in range(4)]
